@@ -44,6 +44,11 @@ def apply_r3(model, tname, fields, string, q):
 
 
 def unfold(model, s, leaf_filter_keys=None):
+    if " " in s:
+        # blanks next to the or-sign of a body segment belong to the sign: 'char, prop' lists 'char' and 'prop'
+        body, qm, q = s.partition("?")
+        body = "/".join(",".join(a.strip(" ") for a in seg.split(",")) if "," in seg else seg for seg in body.split("/"))
+        s = body + qm + q
     if any(c in s for c in " \t\n\r\0"):
         return ("UNSPECIFIED", "whitespace/control")
     if ":" in s:
